@@ -303,6 +303,58 @@ void vf_harness(void)
                 canaries=[{"fn": "CalcSimuTurningBands::_minmax", "rx": r"if \(!db->isActive\(iech\)\) continue;", "rp": "if (!db->isActive(iech)) { }", "expect": r"assertion"}])
 
 
+def unit_all_undefined():
+    """a sample whose variables are all undefined is discarded from every neighbourhood; Db::isAllUndefined says what its name says"""
+    from tools.vf import Fn, Unit
+    pre = """
+typedef _Bool bool;
+#define true 1
+#define false 0
+#define NV 3
+#define TEST 1.234e30
+#define TEST_COMP 1.000e30
+#define FFFF(x) ((x) != (x) || (x) > TEST_COMP)
+#define ELOC_Z 1
+#define ELOC_SIMU 2
+bool _flagSimu;
+static bool isSampleIndexValid(int iech) { return iech >= 0 && iech < 4; }
+static int VF_getLocNumber(int loc) { return loc == ELOC_Z ? W_nz : W_nsimu; }
+static double getZVariable(int iech, int ivar) { __CPROVER_assert(0 <= ivar && ivar < W_nz, "variable rank"); return W_z[ivar]; }
+static double VF_getLocVariable(int loc, int iech, int iatt) { __CPROVER_assert(0 <= iatt && iatt < W_nsimu, "item rank"); return W_s[iatt]; }
+bool Db_isAllUndefined(int iech); bool Db_isAllUndefinedByType(int loctype, int iech);
+"""
+    f1 = Fn("Db::isAllUndefined", "src/Db/Db.cpp", r"^bool Db::isAllUndefined\(int iech\) const\s*$", csig="bool Db_isAllUndefined(int iech)",
+            rewrites=[(r"getLocNumber\(ELoc::Z\)", "VF_getLocNumber(ELOC_Z)", 1)])
+    f2 = Fn("Db::isAllUndefinedByType", "src/Db/Db.cpp", r"^bool Db::isAllUndefinedByType\(const ELoc& loctype, int iech\) const\s*$", csig="bool Db_isAllUndefinedByType(int loctype, int iech)",
+            rewrites=[(r"getLocNumber\(loctype\)", "VF_getLocNumber(loctype)", 1), (r"getLocVariable\(loctype, iech, iatt\)", "VF_getLocVariable(loctype, iech, iatt)", 1)])
+    f3 = Fn("ANeigh::_discardUndefined", "src/Neigh/ANeigh.cpp", r"^bool ANeigh::_discardUndefined\(int iech\)\s*$", csig="bool ANeigh_discardUndefined(int iech)",
+            rewrites=[(r"_dbin->getLocNumber\(ELoc::Z\)", "VF_getLocNumber(ELOC_Z)", 1), (r"_dbin->isAllUndefined\(iech\)", "Db_isAllUndefined(iech)", 1),
+                      (r"_dbin->isAllUndefinedByType\(ELoc::SIMU, iech\)", "Db_isAllUndefinedByType(ELOC_SIMU, iech)", 1)])
+    h = """
+void vf_harness(void)
+{
+  vf_havoc_inputs();
+  __CPROVER_assume(0 <= W_nz && W_nz <= NV && 0 <= W_nsimu && W_nsimu <= NV);
+  _flagSimu = W_simu ? 1 : 0;
+  bool anyz = 0, anys = 0;
+  for (int k = 0; k < NV; k++) { if (k < W_nz && !FFFF(W_z[k])) anyz = 1; if (k < W_nsimu && !FFFF(W_s[k])) anys = 1; }
+  __CPROVER_assert((Db_isAllUndefined(1) != 0) == !anyz, "Db::isAllUndefined is true exactly when no variable of the sample is defined");
+  __CPROVER_assert((Db_isAllUndefinedByType(ELOC_SIMU, 1) != 0) == !anys, "Db::isAllUndefinedByType is true exactly when no item of that type is defined for the sample");
+  bool d = ANeigh_discardUndefined(1);
+  if (W_nz > 0) __CPROVER_assert((d != 0) == (W_simu ? !anys : !anyz), "a sample is discarded from the neighbourhood exactly when all its variables (simulated items in simulation mode) are undefined");
+  else __CPROVER_assert(!d, "without variables nothing is discarded");
+  VF_REACH();
+}
+"""
+    return Unit("C05.all_undefined", [f1, f2, f3], prelude=pre, harness=h, pre_inputs="typedef _Bool bool;\n", unwind=5, checks=["--bounds-check", "--pointer-check"], backends=("minisat", "cadical"), timeout=300,
+                inputs=[("int", "W_nz"), ("int", "W_nsimu"), ("double", "W_z", "3"), ("double", "W_s", "3"), ("bool", "W_simu")],
+                bounded="at most 3 variables (unwinding assertions)",
+                claim=("Db::isAllUndefined / isAllUndefinedByType (real text) are true exactly when no variable (item of the type) of the sample is defined, and ANeigh::_discardUndefined "
+                       "(real text) discards a sample from the neighbourhood exactly in that case"),
+                assumptions=["the Db is a table of values for one sample"],
+                canaries=[{"fn": "ANeigh::_discardUndefined", "rx": r"return 1;", "rp": "return 0;", "expect": r"assertion"}])
+
+
 def units(tier):
     import copy
     from specs import C13
@@ -317,6 +369,7 @@ def units(tier):
     from specs import C04
     u = copy.copy(C04.unit_migrate_ball())
     out.append(unit_simtub_minmax())
+    out.append(unit_all_undefined())
     u.name = "C05.migrate.ball_tree"
     u.claim = "[a sample masked by the selection is never the source of a migrated value, also through the ball tree] " + u.claim
     out.append(u)
